@@ -139,6 +139,14 @@ func (fc *fctx) call(e *ast.CallExpr, nres int) string {
 		return "(trim_space " + fc.args(e)[0] + ")"
 	case "strings.ToUpper":
 		return "(to_upper_u " + fc.args(e)[0] + ")"
+	case "hmac.New":
+		h := fc.bind("deref " + fc.expr(e.Args[0]))
+		return "(hmac_new " + h + " " + fc.expr(e.Args[1]) + ")"
+	case "strconv.FormatUint":
+		if tv, ok := t.info.Types[e.Args[1]]; ok && tv.Value != nil && constant.ToInt(tv.Value).ExactString() == "10" {
+			return "(dec_of_N " + fc.expr(e.Args[0]) + ")"
+		}
+		t.fail(e, "strconv.FormatUint with a base other than the constant 10")
 	case "strings.Split":
 		if tv, ok := t.info.Types[e.Args[1]]; ok && tv.Value != nil && len(constant.StringVal(tv.Value)) == 1 {
 			return fmt.Sprintf("(split %d%%N %s)", constant.StringVal(tv.Value)[0], fc.expr(e.Args[0]))
